@@ -138,26 +138,40 @@ class TupleV(Val):
 
 
 class SymSeqV(Val):
-    """Immutable sequence of symbolic length: element j is `elem` with `jvar` := j.
-    `pytype` records whether python sees a tuple, a list or a numpy array."""
+    """Immutable sequence of symbolic length: element j is fn(j) (a python callable that
+    builds the element for an index term, so that the axiom instances an element needs
+    are created for the index actually used).  `pytype` records whether python sees a
+    tuple, a list or a numpy array."""
     kind = 'symseq'
 
-    def __init__(self, length, jvar, elem, pytype='tuple'):
+    def __init__(self, length, fn, pytype='tuple'):
         self.length = length
-        self.jvar = jvar
-        self.elem = elem
+        self.fn = fn
         self.pytype = pytype
 
+    @classmethod
+    def from_term(cls, length, jvar, elem, pytype='tuple'):
+        return cls(length, lambda e: elem.subst(jvar, e), pytype)
+
     def at(self, e):
-        return self.elem.subst(self.jvar, e)
+        return self.fn(e)
 
     def subst(self, var, e):
-        # the bound variable is fresh per sequence, so no capture
         ln = z3.substitute(self.length, (var, e))
-        return SymSeqV(ln, self.jvar, self.elem.subst(var, e), self.pytype)
+        fn = self.fn
+        r = SymSeqV(ln, lambda i: fn(i).subst(var, e), self.pytype)
+        if hasattr(self, 'keyview'):
+            r.keyview = self.keyview
+        return r
+
+    def retype(self, pytype):
+        r = SymSeqV(self.length, self.fn, pytype)
+        if hasattr(self, 'keyview'):
+            r.keyview = self.keyview
+        return r
 
     def __repr__(self):
-        return 'SymSeqV(len=%s, %s -> %r)' % (self.length, self.jvar, self.elem)
+        return 'SymSeqV(len=%s, %s)' % (self.length, self.pytype)
 
 
 class ListV(Val):
